@@ -6,23 +6,99 @@ import PyGqlModel.StringUtils
 import PyGqlModel.Lemmas.LexRange
 import PyGqlModel.Lemmas.LexRender
 import PyGqlModel.Lemmas.LexChars
+import PyGqlModel.Lemmas.LexTiles
 
 namespace PyGql.Props.C01
 open PyGql.Lex PyGql.StringUtils
+open PyGql.Spec.Lexical (Tiles IgnRun Lexeme Follow)
 
-private theorem lexLoop_bounded (n fuel : Nat) (s : Text) : Bounded n (lexLoop n fuel s) := by
+private theorem lexLoop_bounded (n fuel : Nat) (s : Text) : ∀ e, lexLoop n fuel s = .error e → ErrPos n e := by
   induction fuel generalizing s with
-  | zero => exact bounded_error _ _ (ErrOK.inside (Nat.zero_le _))
+  | zero => intro e he; simp only [lexLoop, Except.error.injEq] at he; subst he; exact Or.inl (Nat.zero_le _)
   | succ fuel ih =>
     intro e he
     unfold lexLoop at he
     split at he
-    · rename_i e' h'; cases he; exact next_bounded n s _ h'
+    · rename_i e' h'; cases he; exact (next_bounded n s _ h').1
     · cases he
     · rename_i tok rest h'
       split at he
       · cases he
       · rename_i e' h''; cases he; exact ih rest _ h''
+
+/-- with more fuel than unread characters the loop never runs out of fuel: every `__next__` that returns a token
+    consumes at least one character -/
+private theorem lexLoop_fuel (n fuel : Nat) (s : Text) (hf : s.length < fuel) :
+    ∀ e, lexLoop n fuel s = .error e → e.kind ≠ .fuel := by
+  induction fuel generalizing s with
+  | zero => omega
+  | succ fuel ih =>
+    intro e he
+    unfold lexLoop at he
+    split at he
+    · rename_i e' h'; cases he; exact (next_bounded n s _ h').2
+    · cases he
+    · rename_i tok rest h'
+      split at he
+      · cases he
+      · rename_i e' h''
+        cases he
+        obtain ⟨ign, lex, hs, _, _, _, hne, _, _⟩ := next_sound n s rest tok h'
+        have : rest.length < s.length := by
+          rw [hs]; cases lex with
+          | nil => exact absurd rfl hne
+          | cons x xs => simp; omega
+        exact ih rest (by omega) _ h''
+
+/-- `lex_fuel_sufficient`: the fuel `len(source) + 1` of `lexAll` is always enough — the model's `fuel` error never
+    occurs, so fuel does not appear in any statement about `lexAll`. -/
+theorem lex_fuel_sufficient (s : Text) (e : SynErr) (h : lexAll s = .error e) : e.kind ≠ .fuel := by
+  unfold lexAll at h
+  split at h
+  · cases h
+  · rename_i e' h'; cases h; exact lexLoop_fuel _ _ _ (Nat.lt_succ_self _) _ h'
+
+private theorem lexLoop_sound (n fuel : Nat) (s : Text) (toks : List Tok) (h : lexLoop n fuel s = .ok toks) :
+    Tiles n s toks := by
+  induction fuel generalizing s toks with
+  | zero => simp [lexLoop] at h
+  | succ fuel ih =>
+    unfold lexLoop at h
+    split at h
+    · cases h
+    · rename_i tok h'
+      simp only [Except.ok.injEq] at h; subst h
+      obtain ⟨rfl, hrun⟩ := next_eof n s tok h'
+      exact .eof s hrun
+    · rename_i tok rest h'
+      split at h
+      · rename_i toks' h''
+        simp only [Except.ok.injEq] at h; subst h
+        obtain ⟨ign, lex, hs, hrun, hlx, hfo, _, hst, hsp⟩ := next_sound n s rest tok h'
+        have htok : tok = ⟨tok.kind, n - (lex ++ rest).length, n - rest.length, tok.value⟩ := by
+          cases tok; simp_all
+        rw [hs, htok]
+        exact .tok ign lex rest tok.kind tok.value toks' hrun hlx hfo (ih rest toks' h'')
+      · cases h
+
+/-- `lex_sound`: whenever the lexer accepts a text, the text is TILED by its tokens: it is the concatenation of
+    ignored runs (BOM, white space, line terminators, commas, maximal comments) and lexemes, in order; each lexeme is a
+    complete lexeme of its token's kind according to the recognisers of Spec/Lexical.lean (Punctuator, Name, IntValue,
+    FloatValue, StringValue, block StringValue) and the token carries the lexeme's span and its value (verbatim text for
+    names and numbers, the decoded semantic value for strings, `BlockStringValue` for block strings); what follows each
+    lexeme obeys maximal munch and the number look-ahead (`Follow`). -/
+theorem lex_sound (s : Text) (toks : List Tok) (h : lexAll s = .ok toks) :
+    ∃ body, toks = sofTok :: body ∧ Tiles s.length s body := by
+  unfold lexAll at h
+  split at h
+  · rename_i body h'
+    simp only [Except.ok.injEq] at h
+    exact ⟨body, h.symm, lexLoop_sound _ _ _ _ h'⟩
+  · cases h
+
+/-- non-vacuity of `lex_sound`: `{a,1.5e05 #c<LF><BOM>"\\n" ...}` (comma, comment, BOM) is accepted -/
+example : (lexAll [123, 97, 44, 49, 46, 53, 101, 48, 53, 32, 35, 99, 10, 65279, 34, 92, 110, 34, 32, 46, 46, 46, 125]).toOption.map (·.map (·.kind)) =
+    some [.sof, .curlyL, .name, .float, .string, .ellip, .curlyR, .eof] := by decide
 
 /-- THE FULL STATEMENT of the property's error clause for the lexer: every syntax error reports a
     position inside the submitted text. It is FALSE on today's code (see `error_in_range_refuted`). -/
